@@ -50,6 +50,7 @@ type opSpec struct {
 	Iface int  `json:"iface,omitempty"` // 0 privileged interface, 1 interface that is neither local nor internal
 	Fail  bool `json:"fail,omitempty"`
 	TTL   int  `json:"ttl,omitempty"` // relative expiry in seconds (0: none), kept in the record's metadata
+	Raw   bool `json:"raw,omitempty"` // the record is written in the RAW format (no accessor for conditions)
 }
 
 var keyPool = []string{"a/1", "a/2", "b/1", "b/2", "c"}
@@ -162,6 +163,9 @@ func (c cond) String() string {
 }
 
 func (c cond) matches(r *srec) bool {
+	if r.Opaque && c.Kind != 0 {
+		return false // a record without accessor (not JSON) satisfies no condition
+	}
 	switch c.Kind {
 	case 1:
 		return r.V > int64(c.Arg)
@@ -182,6 +186,9 @@ type srec struct {
 	Crown   bool
 	Deleted bool
 	TTL     int64 // relative expiry kept in the metadata (0: none)
+	// Opaque: the record is a wrapper in a format queries cannot look into (RAW; the payload is still the JSON text,
+	// so that the harness can read it). Registrations without a condition match it like any other record.
+	Opaque bool
 }
 
 func (r *srec) permits(local, internal bool) bool {
@@ -193,7 +200,7 @@ func (r *srec) payload() []byte {
 }
 
 func (r srec) String() string {
-	return fmt.Sprintf("{V=%d S=%s Q=%d secret=%v crown=%v deleted=%v ttl=%d}", r.V, r.S, r.Q, r.Secret, r.Crown, r.Deleted, r.TTL)
+	return fmt.Sprintf("{V=%d S=%s Q=%d secret=%v crown=%v deleted=%v ttl=%d opaque=%v}", r.V, r.S, r.Q, r.Secret, r.Crown, r.Deleted, r.TTL, r.Opaque)
 }
 
 // qreg is a query object with the data it was built from.
@@ -300,10 +307,11 @@ func readLocked(r record.Record) (srec, bool) {
 		S string
 		Q int64
 	}
-	if w.Format != dsd.JSON || json.Unmarshal(w.Data, &v) != nil {
+	if (w.Format != dsd.JSON && w.Format != dsd.RAW) || json.Unmarshal(w.Data, &v) != nil {
 		return out, false
 	}
 	out.V, out.S, out.Q = v.V, v.S, v.Q
+	out.Opaque = w.Format == dsd.RAW
 	return out, true
 }
 
@@ -325,7 +333,7 @@ func (h *hhook) replacement(r record.Record) record.Record {
 	if w.Meta() != nil {
 		meta = w.Meta().Duplicate()
 	}
-	nw, _ := record.NewWrapper(w.Key(), meta, dsd.JSON, cur.payload())
+	nw, _ := record.NewWrapper(w.Key(), meta, w.Format, cur.payload())
 	return nw
 }
 
@@ -838,7 +846,7 @@ func (e *env) regFor(op opSpec) (*qreg, bool) {
 
 func (e *env) newRec(op opSpec) srec {
 	e.nextQ++
-	return srec{V: int64(op.V % 10), S: fmt.Sprintf("s%d", op.S%3), Q: e.nextQ, Secret: op.Flags&1 != 0, Crown: op.Flags&2 != 0, TTL: int64(op.TTL)}
+	return srec{V: int64(op.V % 10), S: fmt.Sprintf("s%d", op.S%3), Q: e.nextQ, Secret: op.Flags&1 != 0, Crown: op.Flags&2 != 0, TTL: int64(op.TTL), Opaque: op.Raw}
 }
 
 func (e *env) exec(op opSpec) {
@@ -927,6 +935,9 @@ func (e *env) exec(op opSpec) {
 		}
 		cur := e.newRec(op)
 		w := newWrapper(e.full(k), cur.payload(), cur.Secret, cur.Crown)
+		if cur.Opaque {
+			w.Format = dsd.RAW
+		}
 		if cur.TTL > 0 {
 			w.Meta().SetRelativateExpiry(cur.TTL)
 		}
@@ -985,6 +996,9 @@ func (e *env) exec(op opSpec) {
 		}
 		cur := e.newRec(op)
 		w := newWrapper(e.full(k), cur.payload(), cur.Secret, cur.Crown)
+		if cur.Opaque {
+			w.Format = dsd.RAW
+		}
 		if cur.TTL > 0 {
 			w.Meta().SetRelativateExpiry(cur.TTL)
 			if op.Kind == "putnew" {
